@@ -12,14 +12,40 @@ the *current* headers and `crosscheck()` compares the two in both directions
 (a documented member missing from the table, or a table row whose declaration
 no longer exists, is reported by the check).
 
-  gen_cpp_members.py --list                 print the table
-  gen_cpp_members.py --emit DIR             write the TUs into DIR
-  gen_cpp_members.py --crosscheck [REPO]    compare with clang's AST
+Variants of the headers (VARIANTS below): "stl" (default build), "nostl"
+(-DASCON_NO_STL: ascon::byte_array is the library's own class, no std::string
+overloads, no bytes_to_hex) and "arduino" (-DARDUINO=<version>, which makes
+utility.h define ASCON_NO_STL itself and adds `String` overloads; compiled on
+the host against the minimal stub harness/arduino_stub/{Arduino.h,WString.h}).
+Rows flagged "stl" exist only in the first, rows flagged "arduino" only in the
+last, rows flagged "nostl" (the members of class ascon::byte_array) in the last
+two.
+
+  gen_cpp_members.py --list [VARIANT]                 print the table
+  gen_cpp_members.py --emit DIR [VARIANT]             write the TUs into DIR
+  gen_cpp_members.py --crosscheck [REPO] [VARIANT]    compare with clang's AST
 """
 import os, sys, json, re, subprocess
 
 HEADERS = ["aead.h", "aead-masked.h", "siv.h", "isap.h", "hash.h", "xof.h", "utility.h"]
 XOF_LENGTHS = [0, 1, 16, 32, 64]          # template arguments instantiated (0 = arbitrary length)
+
+_HERE = os.path.dirname(os.path.dirname(os.path.abspath(__file__)))
+ARDUINO_STUB = os.path.join(_HERE, "harness", "arduino_stub")
+# variant -> preprocessor definitions, extra include directories (after -I<repo>/src)
+VARIANTS = {
+    "stl": {"defs": [], "incdirs": [], "what": "default build: ascon::byte_array = std::vector<unsigned char>, std::string overloads"},
+    "nostl": {"defs": ["-DASCON_NO_STL"], "incdirs": [],
+              "what": "-DASCON_NO_STL: ascon::byte_array is the library's own class; no std::string overloads, no bytes_to_hex"},
+    "arduino": {"defs": ["-DARDUINO=10819"], "incdirs": [ARDUINO_STUB],
+                "what": "-DARDUINO=10819 (utility.h then defines ASCON_NO_STL itself): String overloads; host compilers against the "
+                        "minimal STUB <Arduino.h>/<WString.h> of harness/arduino_stub (not the real Arduino core)"},
+}
+
+
+def variant_flags(variant, repo):
+    v = VARIANTS[variant]
+    return list(v["defs"]) + ["-I" + os.path.join(repo, "src")] + ["-I" + d for d in v["incdirs"]]
 
 # ---------------------------------------------------------------------------
 # The table.  A row is (member name, clang qualType of the declaration,
@@ -29,7 +55,7 @@ XOF_LENGTHS = [0, 1, 16, 32, 64]          # template arguments instantiated (0 =
 PRE_CIPHER = ("static unsigned char k[%(K)d] = {1, 2, 3};\n"
               "    static unsigned char n16[16] = {9}; static unsigned char m[40] = {7}; static unsigned char ad[5] = {5};\n"
               "    static unsigned char c[56]; static unsigned char p[40];\n"
-              "    ascon::byte_array bm(m, m + 40), bad(ad, ad + 5), bc, bp;\n"
+              "    ascon::byte_array bm(m, m + 40); ascon::byte_array bad(ad, ad + 5); ascon::byte_array bc, bp;\n"
               "    (void)k; (void)n16; (void)c; (void)p;\n")
 
 SIG_PTR = "int (unsigned char *, const unsigned char *, size_t, const unsigned char *, size_t)"
@@ -176,6 +202,9 @@ def hash_rows(T, st, size_macro):
         ("update", "void (const ascon::byte_array &)", [("byte_array", "T o; ascon::byte_array b(d, d + 9); o.update(b);")]),
         ("update", "void (const std::string &)", [("string", 'T o; std::string s("abc"); o.update(s);'),
                                                    ("temporary", 'T o; o.update(std::string("abc"));')], "stl"),
+        ("update", "void (const String &)", [("String", 'T o; String s("abc"); o.update(s);'),
+                                              ("temporary", 'T o; o.update(String("abc"));'),
+                                              ("empty", 'T o; String s; o.update(s);')], "arduino"),
         ("finalize", "void (unsigned char *)", [("array", "T o; unsigned char out[%s]; o.finalize(out);" % size_macro)]),
         ("finalize", "ascon::byte_array ()", [("byte_array", "T o; ascon::byte_array r = o.finalize(); (void)r;")]),
         ("digest", "void (unsigned char *, const unsigned char *, size_t)",
@@ -207,6 +236,9 @@ def xof_rows(tmpl, st):
         ("absorb", "void (const ascon::byte_array &)", [("byte_array", "T o; ascon::byte_array b(d, d + 9); o.absorb(b);")]),
         ("absorb", "void (const std::string &)", [("string", 'T o; std::string s("abc"); o.absorb(s);'),
                                                    ("temporary", 'T o; o.absorb(std::string("abc"));')], "stl"),
+        ("absorb", "void (const String &)", [("String", 'T o; String s("abc"); o.absorb(s);'),
+                                              ("temporary", 'T o; o.absorb(String("abc"));'),
+                                              ("empty", 'T o; String s; o.absorb(s);')], "arduino"),
         ("squeeze", "void (unsigned char *, size_t)", [("ptr", "T o; unsigned char out[64]; o.squeeze(out, sizeof(out));")]),
         ("squeeze", "ascon::byte_array (size_t)", [("byte_array", "T o; ascon::byte_array r = o.squeeze(64); (void)r;")]),
         ("pad", "void ()", [("call", "T o; o.absorb(d, 3); o.pad();")]),
@@ -216,7 +248,7 @@ def xof_rows(tmpl, st):
 
 
 UTIL_ROWS = [
-    ("byte_array", "std::vector<unsigned char>", [("typedef", "ascon::byte_array b(3); b.resize(5); std::vector<unsigned char> &v = b; (void)v;")], "typedef"),
+    ("byte_array", "std::vector<unsigned char>", [("typedef", "ascon::byte_array b(3); b.resize(5); std::vector<unsigned char> &v = b; (void)v;")], "stl"),
     ("bytes_from_hex", "ascon::byte_array (const char *, size_t)", [("ptr-len", 'ascon::byte_array r = ascon::bytes_from_hex("0011aaFF", 8); (void)r;')]),
     ("bytes_from_hex", "ascon::byte_array (const char *)", [("c-string", 'ascon::byte_array r = ascon::bytes_from_hex("0011aaFF"); (void)r;'),
                                                              ("null", "ascon::byte_array r = ascon::bytes_from_hex((const char *)0); (void)r;")]),
@@ -229,6 +261,49 @@ UTIL_ROWS = [
         ("1-arg", "ascon::byte_array b(d, d + 9); std::string s = ascon::bytes_to_hex(b); (void)s;"),
         ("upper", "ascon::byte_array b(d, d + 9); std::string s = ascon::bytes_to_hex(b, true); (void)s;")], "stl"),
 ]
+UTIL_ROWS += [
+    ("bytes_from_hex", "ascon::byte_array (const String &)", [("String", 'String s("0011"); ascon::byte_array r = ascon::bytes_from_hex(s); (void)r;'),
+                                                               ("temporary", 'ascon::byte_array r = ascon::bytes_from_hex(String("0011aaFF")); (void)r;')], "arduino"),
+    ("bytes_to_hex", "String (const unsigned char *, size_t, bool)", [
+        ("2-args", "String s = ascon::bytes_to_hex(d, sizeof(d)); (void)s;"),
+        ("upper", "String s = ascon::bytes_to_hex(d, sizeof(d), true); (void)s;")], "arduino"),
+    ("bytes_to_hex", "String (const ascon::byte_array &, bool)", [
+        ("1-arg", "ascon::byte_array b(d, d + 9); String s = ascon::bytes_to_hex(b); (void)s;"),
+        ("upper", "ascon::byte_array b(d, d + 9); String s = ascon::bytes_to_hex(b, true); (void)s;")], "arduino"),
+]
+# class ascon::byte_array of the ASCON_NO_STL variants (utility.h:119; its behaviour is C20's subject, here: every
+# non-private member compiles when used).  No Doxygen comments of their own; the class stands in for the documented typedef.
+_BA = "ascon::byte_array"
+BYTE_ARRAY_ROWS = [
+    ("byte_array", "void ()", [("default", "T o; (void)o;"), ("new-delete", "T *q = new T(); delete q;")]),
+    ("byte_array", "void (const %s &)" % _BA, [("copy", "T a(3); T o(a); (void)o;"), ("copy-init", "T a(3); T o = a; (void)o;")]),
+    ("byte_array", "void (size_t, unsigned char)", [("size", "T o(3); (void)o;"), ("size-value", "T o(3, 0xDD); (void)o;"),
+                                                    ("zero", "T o((size_t)0); (void)o;")]),
+    ("~byte_array", "void () noexcept", [("scope", "{ T o(3); (void)o; }"), ("explicit", "T *q = new T(3); q->~T(); ::operator delete(q);")]),
+    ("operator=", "%s &(const %s &)" % (_BA, _BA), [("assign", "T a(3), o; o = a;"), ("self", "T o(3); T &r = o; o = r;"), ("chain", "T a(3), b, o; o = b = a;")]),
+    ("operator[]", "unsigned char &(size_t)", [("write", "T o(3); o[1] = 7;")]),
+    ("operator[]", "const unsigned char &(size_t) const", [("read", "T o(3); const T &cr = o; unsigned char v = cr[1]; (void)v;")]),
+    ("size", "size_t () const", [("call", "T o(3); const T &cr = o; size_t r = cr.size(); (void)r;")]),
+    ("capacity", "size_t () const", [("call", "T o(3); const T &cr = o; size_t r = cr.capacity(); (void)r;")]),
+    ("empty", "bool () const", [("call", "T o; const T &cr = o; bool r = cr.empty(); (void)r;")]),
+    ("data", "unsigned char *()", [("mutable", "T o(3); unsigned char *q = o.data(); (void)q;")]),
+    ("data", "const unsigned char *() const", [("const", "T o(3); const T &cr = o; const unsigned char *q = cr.data(); (void)q;")]),
+    ("reserve", "void (size_t)", [("call", "T o; o.reserve(40);")]),
+    ("resize", "void (size_t)", [("grow", "T o; o.resize(40);"), ("shrink", "T o(40); o.resize(0);")]),
+    ("clear", "void ()", [("call", "T o(3); o.clear();")]),
+    ("push_back", "void (unsigned char)", [("call", "T o; o.push_back(1);")]),
+    ("pop_back", "void ()", [("call", "T o(3); o.pop_back();")]),
+] + [("operator" + op, "bool (const %s &) const" % _BA, [("compare", "T a(3), b(4); bool r = a %s b; (void)r;" % op)])
+     for op in ("==", "!=", "<", "<=", ">", ">=")] + [
+    ("begin", "ascon::byte_array::iterator ()", [("mutable", "T o(3); T::iterator it = o.begin(); (void)it;")]),
+    ("end", "ascon::byte_array::iterator ()", [("mutable", "T o(3); T::iterator it = o.end(); (void)it;"),
+                                                ("loop", "T o(3); for (T::iterator it = o.begin(); it != o.end(); ++it) *it = 1;")]),
+    ("begin", "ascon::byte_array::const_iterator () const", [("const", "T o(3); const T &cr = o; T::const_iterator it = cr.begin(); (void)it;")]),
+    ("end", "ascon::byte_array::const_iterator () const", [("const", "T o(3); const T &cr = o; T::const_iterator it = cr.end(); (void)it;")]),
+    ("cbegin", "ascon::byte_array::const_iterator () const", [("call", "T o(3); T::const_iterator it = o.cbegin(); (void)it;")]),
+    ("cend", "ascon::byte_array::const_iterator () const", [("call", "T o(3); T::const_iterator it = o.cend(); (void)it;")]),
+]
+BYTE_ARRAY_ROWS = [r + ("nostl",) for r in BYTE_ARRAY_ROWS]
 TYPEDEF_ROWS = [
     ("xof", "xof_with_output_length<0>", [("typedef", 'ascon::xof x; unsigned char out[64]; x.absorb(d, 9); x.squeeze(out, sizeof(out)); '
                                                        'ascon::xof_with_output_length<0> &r = x; (void)r;')], "typedef"),
@@ -246,14 +321,29 @@ CIPHERS = [  # class, header, base, key size, isap, masked
 PRE_DATA = "static const unsigned char d[9] = {1, 2, 3, 4, 5, 6, 7, 8, 9}; (void)d;\n"
 
 
-def table():
+_RANGE_CTOR = re.compile(r"ascon::byte_array (\w+)\((\w+), \2 \+ (\w+)\);")
+
+
+def nostl_code(code):
+    """the library's own byte_array has no iterator-range constructor: size constructor + memcpy instead"""
+    return _RANGE_CTOR.sub(r"ascon::byte_array \1((size_t)\3); ::memcpy(\1.data(), \2, \3);", code)
+
+
+def table(variant="stl"):
     """-> list of dict(cls, inst, header, name, sig, uses, flags, pre, T)"""
     out = []
+    assert variant in VARIANTS
+    only = {"stl": ("stl",), "nostl": ("nostl",), "arduino": ("nostl", "arduino")}[variant]
+    fix = (lambda c: c) if variant == "stl" else nostl_code
 
     def add(cls, inst, header, rows, pre, T, decl_cls=None):
         for r in rows:
             name, sig, uses = r[0], r[1], r[2]
             flags = r[3] if len(r) > 3 else ""
+            if flags in ("stl", "nostl", "arduino") and flags not in only:
+                continue
+            uses = [(label, fix(code)) for (label, code) in uses]
+            pre = fix(pre)
             out.append({"cls": decl_cls or cls, "inst": inst, "header": header, "name": name, "sig": sig, "uses": uses,
                         "flags": flags, "pre": pre, "T": T})
     for (c, h, base, K, isap, masked) in CIPHERS:
@@ -266,6 +356,7 @@ def table():
         for L in XOF_LENGTHS:
             add(tmpl, "%s<%d>" % (tmpl, L), "xof.h", xof_rows(tmpl, st), PRE_DATA, "ascon::%s<%d>" % (tmpl, L))
     add("", "utility", "utility.h", UTIL_ROWS, PRE_DATA, "")
+    add("byte_array", "byte_array", "utility.h", BYTE_ARRAY_ROWS, "", "ascon::byte_array")
     add("", "typedefs", "xof.h", TYPEDEF_ROWS, PRE_DATA, "")
     return out
 
@@ -279,12 +370,19 @@ def groups(tab=None):
     return g
 
 
-def tu_text(inst, name, rows):
+def tu_text(inst, name, rows, variant="stl"):
     hs = sorted(set(r["header"] for r in rows))
     s = "// C17 compile coverage: %s :: %s\n" % (inst, name)
+    if variant != "stl":
+        s += "// variant %s: compile with %s\n" % (variant, " ".join(VARIANTS[variant]["defs"]))
+    if variant == "arduino":
+        s += "#include <Arduino.h>      // STUB: harness/arduino_stub/Arduino.h of the verification framework\n"
     s += "#include <stdint.h>\n#include <new>\n"
     s += "".join("#include <ascon/%s>\n" % h for h in hs)
-    s += "#include <string>\n"
+    if variant == "stl":
+        s += "#include <string>\n"
+    else:
+        s += "#include <string.h>\n"
     uses = []
     k = 0
     for r in rows:
@@ -309,12 +407,12 @@ def base_prelude(inst):
     return ""
 
 
-def emit(dirname):
+def emit(dirname, variant="stl"):
     """Writes the TUs; returns list of dict(file, inst, member, uses=[(sig,label)])."""
     os.makedirs(dirname, exist_ok=True)
     res = []
-    for (inst, name), rows in sorted(groups().items()):
-        txt, uses = tu_text(inst, name, rows)
+    for (inst, name), rows in sorted(groups(table(variant)).items()):
+        txt, uses = tu_text(inst, name, rows, variant)
         if not uses:
             continue
         pre = base_prelude(inst)
@@ -325,6 +423,28 @@ def emit(dirname):
         fn = re.sub(r"[^A-Za-z0-9_]", "_", "%s__%s" % (inst, name.replace("~", "dtor_").replace("operator=", "op_assign"))) + ".cpp"
         open(os.path.join(dirname, fn), "w").write(txt)
         res.append({"file": fn, "inst": inst, "member": name, "uses": [(u[1]["name"], u[1]["sig"], u[2]) for u in uses]})
+    return res
+
+
+def emit_merged(dirname, variant="stl"):
+    """One TU per class instantiation: the use functions of all its member groups, concatenated (same headers, same
+    function bodies as the small TUs of emit()).  Returns list of dict(file, inst, member="*", uses, groups=[member names])."""
+    os.makedirs(dirname, exist_ok=True)
+    by_inst = {}
+    for (inst, name), rows in sorted(groups(table(variant)).items()):
+        e = by_inst.setdefault(inst, {"rows": [], "groups": []})
+        e["rows"] += rows
+        e["groups"].append(name)
+    res = []
+    for inst, e in sorted(by_inst.items()):
+        txt, uses = tu_text(inst, "* (all member groups)", e["rows"], variant)
+        pre = base_prelude(inst)
+        if pre:
+            idx = txt.index("// ", txt.index("#include <ascon/"))
+            txt = txt[:idx] + pre + txt[idx:]
+        fn = "all__" + re.sub(r"[^A-Za-z0-9_]", "_", inst) + ".cpp"
+        open(os.path.join(dirname, fn), "w").write(txt)
+        res.append({"file": fn, "inst": inst, "member": "*", "groups": e["groups"], "uses": [(u[1]["name"], u[1]["sig"], u[2]) for u in uses]})
     return res
 
 
@@ -344,12 +464,12 @@ def _docs(txt):
     return out
 
 
-def inventory(repo, clang="clang++-14"):
+def inventory(repo, clang="clang++-14", variant="stl"):
     """-> set of (class, name, qualType) for every non-private, non-implicit
     constructor/destructor/method of the classes of namespace ascon, the free
     functions and the typedefs, plus the subset that carries a Doxygen comment."""
     src = "".join("#include <ascon/%s>\n" % h for h in HEADERS)
-    p = subprocess.run([clang, "-std=c++11", "-fsyntax-only", "-I" + os.path.join(repo, "src"), "-Xclang", "-ast-dump=json",
+    p = subprocess.run([clang, "-std=c++11", "-fsyntax-only"] + variant_flags(variant, repo) + ["-Xclang", "-ast-dump=json",
                         "-Xclang", "-ast-dump-filter=ascon::", "-x", "c++", "-"], input=src.encode(),
                        stdout=subprocess.PIPE, stderr=subprocess.PIPE)
     docs = _docs(p.stdout.decode())
@@ -387,9 +507,9 @@ def inventory(repo, clang="clang++-14"):
     return inv, documented
 
 
-def table_keys():
+def table_keys(variant="stl"):
     keys = set()
-    for r in table():
+    for r in table(variant):
         if r["flags"] == "inherited":
             keys.add(("aead", r["name"].split("::")[-1], r["sig"]))
         else:
@@ -397,26 +517,29 @@ def table_keys():
     return keys
 
 
-def crosscheck(repo):
-    inv, documented = inventory(repo)
-    tk = table_keys()
+def crosscheck(repo, variant="stl"):
+    inv, documented = inventory(repo, variant=variant)
+    tk = table_keys(variant)
     return sorted(inv - tk), sorted(tk - inv), len(inv), len(documented)
 
 
 if __name__ == "__main__":
     a = sys.argv[1:]
+    variant = "stl"
+    if a and a[-1] in VARIANTS:
+        variant = a.pop()
     if a[:1] == ["--list"]:
         n = 0
-        for r in table():
+        for r in table(variant):
             for u in r["uses"]:
                 n += 1
                 print("%-28s %-16s %-70s %s" % (r["inst"], r["name"], r["sig"], u[0]))
-        print("# %d rows, %d uses, %d groups" % (len(table()), n, len(groups())))
+        print("# %d rows, %d uses, %d groups" % (len(table(variant)), n, len(groups(table(variant)))))
     elif a[:1] == ["--emit"]:
-        r = emit(a[1])
+        r = emit(a[1], variant)
         print("%d translation units, %d uses" % (len(r), sum(len(x["uses"]) for x in r)))
     elif a[:1] == ["--crosscheck"]:
-        missing, stale, n, nd = crosscheck(a[1] if len(a) > 1 else os.environ.get("VERIF_REPO", "/repo"))
+        missing, stale, n, nd = crosscheck(a[1] if len(a) > 1 else os.environ.get("VERIF_REPO", "/repo"), variant)
         print("declarations in the headers: %d (with a Doxygen comment of their own: %d)" % (n, nd))
         for m in missing:
             print("NOT IN TABLE:", m)
